@@ -15,6 +15,10 @@ structure St where
   sawQuery : Bool := false
   sawMidCkpt : Bool := false
 
+def insertPairNat (x : Nat × Nat) : List (Nat × Nat) → List (Nat × Nat)
+  | [] => [x]
+  | y :: ys => if x.1 < y.1 || (x.1 == y.1 && x.2 ≤ y.2) then x :: y :: ys else y :: insertPairNat x ys
+
 def dumpStore (s : Store) : String :=
   let ns := (sortNat s.nodeIds).map (fun id =>
     s!"{id}:{natList (sortNat (s.nodeLabelsOf id))}:{showProps (s.nodePropsOf id)}")
@@ -22,7 +26,10 @@ def dumpStore (s : Store) : String :=
     match aget s.edges id with
     | some (_, r) => s!"{id}:{r.src}>{r.dst}:{r.ty}:{showProps ((aget s.eprops id).getD [])}"
     | none => s!"{id}:?")
-  joinWith ";" ns ++ "|" ++ joinWith ";" es
+  let showAdj := fun (l : List (Nat × Nat)) =>
+    joinWith "," ((l.map (fun p => (p.2, p.1))).foldr insertPairNat [] |>.map (fun p => s!"{p.1}.{p.2}"))
+  let adj := (sortNat s.nodeIds).map (fun id => s!"{id}>{showAdj (s.outEdges id)}<{showAdj (s.inEdges id)}")
+  joinWith ";" ns ++ "|" ++ joinWith ";" es ++ "|" ++ joinWith ";" adj
 
 def dumpSpec (z : DriverLpg.St) : String :=
   let nids := sortNat ((z.sn.filter (fun kv => kv.2.alive)).map (·.1))
@@ -33,7 +40,13 @@ def dumpSpec (z : DriverLpg.St) : String :=
   let es := eids.map (fun id => match aget z.se id with
     | some e => s!"{id}:{e.src}>{e.dst}:{e.ty}:{showProps e.props}"
     | none => "?")
-  joinWith ";" ns ++ "|" ++ joinWith ";" es
+  -- the specification's adjacency: every live edge, filed under its source and under its target
+  let live := eids.filterMap (fun id => (aget z.se id).map (fun e => (id, e)))
+  let adj := nids.map (fun n =>
+    let o := (live.filter (fun p => p.2.src == n)).map (fun p => s!"{p.1}.{p.2.dst}")
+    let i := (live.filter (fun p => p.2.dst == n)).map (fun p => s!"{p.1}.{p.2.src}")
+    s!"{n}>{joinWith "," o}<{joinWith "," i}")
+  joinWith ";" ns ++ "|" ++ joinWith ";" es ++ "|" ++ joinWith ";" adj
 
 def sigNow (z : St) : String :=
   if !z.g.ghost.isEmpty || !z.g.ghostE.isEmpty then "property-set-on-missing-node"
